@@ -230,40 +230,68 @@ def coq_eval_cases(mod, terms, workdir, tag, shard=None):
     """terms: list of Gallina `case` terms.  Returns (bad_corr, bad_prop, errors)
     as lists of indices into terms."""
     os.makedirs(workdir, exist_ok=True)
-    files = []
     if shard is None:
         # spread the cases over the cores; at most 400 cases per file
         shard = max(20, min(400, -(-len(terms) // NCPU)))
     coq_eval_cases.last_shard = shard
-    for k in range(0, len(terms), shard):
-        chunk = terms[k:k + shard]
-        fn = os.path.join(workdir, 'cases_%s_%d.v' % (tag, k // shard))
+    nfiles = -(-len(terms) // shard) if terms else 0
+    # file j gets the cases j, j + nfiles, j + 2 nfiles, ...: generators emit their expensive kinds of cases in blocks,
+    # and a contiguous split would put a whole block into one file
+    groups = [list(range(j, len(terms), nfiles)) for j in range(nfiles)]
+
+    def write_cases(fn, idxs):
         with open(fn, 'w') as f:
             f.write('From Coq Require Import ZArith NArith QArith List String Ascii Bool.\n')
             f.write('From V Require Import Base.Harness.\n')
             f.write(mod.CASE_IMPORTS + '\n')
             f.write('Import ListNotations.\nLocal Open Scope list_scope.\n')
             f.write('Definition cases : list case := [\n')
-            f.write(';\n'.join(chunk))
+            f.write(';\n'.join(terms[i] for i in idxs))
             f.write('\n].\n')
             f.write('Eval vm_compute in (verdict corr prop cases).\n')
-        files.append((k, fn))
 
-    def one(kf):
-        k, fn = kf
-        rc, out = sh('ulimit -s unlimited 2>/dev/null; timeout 900 coqc -Q %s V %s' % (COQ, fn),
-                     cwd=workdir, timeout=930)
+    files = []
+    for j, idxs in enumerate(groups):
+        fn = os.path.join(workdir, 'cases_%s_%d.v' % (tag, j))
+        write_cases(fn, idxs)
+        files.append((idxs, fn))
+
+    def one(kf, limit=900):
+        idxs, fn = kf
+        rc, out = sh('ulimit -s unlimited 2>/dev/null; timeout %d coqc -Q %s V %s' % (limit, COQ, fn),
+                     cwd=workdir, timeout=limit + 30)
         v = parse_verdict(out) if rc == 0 else None
-        return k, fn, rc, out, v
+        return idxs, fn, rc, out, v
 
     bad_corr, bad_prop, errors = [], [], []
+    slow = []
     with ThreadPoolExecutor(max_workers=NCPU) as ex:
-        for k, fn, rc, out, v in ex.map(one, files):
+        for idxs, fn, rc, out, v in ex.map(one, files):
             if v is None:
-                errors.append((fn, out[-3000:]))
+                if rc == 124 and len(idxs) > 1:
+                    slow.append((idxs, fn))          # ran out of time: evaluated again below, in small pieces
+                else:
+                    errors.append((fn, out[-3000:]))
                 continue
-            bad_corr += [k + i for i in v[0]]
-            bad_prop += [k + i for i in v[1]]
+            bad_corr += [idxs[i] for i in v[0]]
+            bad_prop += [idxs[i] for i in v[1]]
+    # a file of cases that ran out of time is split into pieces of a few cases, each with a longer limit of its own, so
+    # that a few expensive cases sharing a file (or a busy machine) do not turn into a failed obligation
+    if slow:
+        pieces = []
+        for idxs, fn0 in slow:
+            step = max(1, len(idxs) // 16)
+            for j in range(0, len(idxs), step):
+                fn = fn0[:-2] + '_retry_%d.v' % j
+                write_cases(fn, idxs[j:j + step])
+                pieces.append((idxs[j:j + step], fn))
+        with ThreadPoolExecutor(max_workers=NCPU) as ex:
+            for idxs, fn, rc, out, v in ex.map(lambda kf: one(kf, 2400), pieces):
+                if v is None:
+                    errors.append((fn, out[-3000:]))
+                    continue
+                bad_corr += [idxs[i] for i in v[0]]
+                bad_prop += [idxs[i] for i in v[1]]
     return sorted(bad_corr), sorted(bad_prop), errors
 
 
